@@ -54,6 +54,7 @@ class ProbeNodeVec(ProbeNode):
     OUT_SHAPE = (2,)
 
 
+ORACLE_RETURNS = {}  # callback name -> value to return (set by replays so that the real run sees the solver model's oracle results)
 CALL_LOG = []  # host-side trace written by the oracle callbacks when the real code is run concretely (replays)
 
 
@@ -63,6 +64,8 @@ def oracle_callback(tag, shape=(), dtype=jnp.float32):
 
     def _cb(*args):
         CALL_LOG.append((f"oracle_{tag}", [onp.asarray(a) for a in args]))
+        if f"oracle_{tag}" in ORACLE_RETURNS:
+            return onp.asarray(ORACLE_RETURNS[f"oracle_{tag}"], dtype=dtype).reshape(shape)
         h = 0.0
         for i, a in enumerate(args):
             h += float(onp.sum(onp.asarray(a, dtype=onp.float64))) * (0.5 + 0.25 * i)
